@@ -16,7 +16,7 @@ CHECKS = {
             "Obs.tla (rule hang: an exact stuck state, or a Wait still pending after a fair drain of K render cycles).", "8 C01"),
     "C02": ("model_checking", "NoPanic on MPBCore.tla; on the real library a panic kills the scenario worker and is attributed to its trace; late "
             "calls (Add/Write/mutators/getters after Wait) are checked by Obs.tla rules late-add, late-write, final-values-changed, wrong-id; "
-            "Api.tla enumerates every place where a nil value is a valid argument (x kind of nil x refresh mode) and each case runs in a process of its own; "
+            "Api.tla enumerates every place where a nil value is a valid argument (x kind of nil x refresh mode) and the eight conditional option helpers (x condition) and each case runs in a process of its own; "
             "a library goroutine that spins is reported by a real-time watchdog.", "8 C02"),
     "C03": ("model_checking", "Obs.tla rules last-frame-missing, last-frame-has-removed, last-row-not-final, write-after-wait evaluated by TLC on "
             "recorded executions (final getters after Wait vs the parsed last frame); decoration-does-not-match-state, finished-bar-not-retired, "
@@ -36,12 +36,15 @@ CHECKS = {
             "on the real filler at scales up to MaxInt64; random int64 triples are judged by exact integer arithmetic; refill clauses via Fill.tla rows.", "8 C08"),
     "C09": ("model_checking", "BarState.tla (one action per mutator, phases live/term/exited) is model-checked by TLC (invariants and action "
             "properties of the documented rules); TLC emits its complete labelled transition relation and every transition (quick: a seeded "
-            "sample) is replayed on a real bar as path+edge, the getters after every call being explained by a subset construction over the relation.", "8 C09"),
+            "sample) is replayed on a real bar as path+edge, the getters after every call being explained by a subset construction over the relation; "
+            "one walk in five with every number scaled by 2^33 or 2^59.  The same rules for every integer: Apalache discharges an inductive invariant "
+            "of BarRules.tla (BarInd.tla) and nine action properties as one-step obligations, and must find the counterexample in the unrepaired rule.", "5.2"),
     "C10": ("model_checking", "free-running histories (2-4 client goroutines on one bar while it is rendered, completes and exits) are checked "
             "for linearizability against BarState by TLC (BarLin.tla searches linearization points; the bar's exit is a silent step); "
             "the same programs (plus queued bars, average decorators adjusted while frames are drawn, several moving-average decorators) run under the Go race "
             "detector, a report with library frames is a violation; ten containers at work at once under the race detector.", "8 C10"),
-    "C11": ("model_checking", "BarState.tla invariants (exclusive, stable) by TLC; on real executions Obs.tla rules completed-and-aborted, "
+    "C11": ("model_checking", "BarState.tla invariants (exclusive, stable) by TLC and, for every integer, by Apalache (BarInd.tla: inductive invariant, "
+            "ActTerminalForEver, ActAbortedStable, ActCompletedStable); on real executions Obs.tla rules completed-and-aborted, "
             "completed-unstable, aborted-unstable, row-completed-and-aborted, row-terminal-state-changed, not-exactly-one-terminal-state.", "8 C11"),
     "C12": ("model_checking", "Obs.tla rules column-width (all widths handed back in one column equal the maximum needed), plain-width, "
             "row-misaligned (text offsets) on every frame; probe decorators vary their needs per frame.", "8 C12"),
@@ -62,7 +65,9 @@ CHECKS = {
             "unit selection for symbolic byte counts, the h/m/s split and exact percentages, checked by TLC; every terminal case is executed on "
             "the real decorators; the median window and the exponentially weighted average (exact fractions, IsAnAverage) replayed on NewMedian / EwmaETA / EwmaSpeed "
             "(samples through a real bar and 0/1/3 wrappers into a recording moving average; printed numbers parsed back and "
-            "compared in exact arithmetic; NaN/Inf/panic and reported-width mismatches are violations; freeze after completion on a fake clock).", "8 C20"),
+            "compared in exact arithmetic; NaN/Inf/panic and reported-width mismatches are violations; freeze after completion on a fake clock); "
+            "the two ETA time normalizers as step machines (NormShown, NormCountsDown, NormFresh, NormTolerant), every call sequence replayed on the real "
+            "normalizers and through MovingAverageETA on a fake clock.", "8 C20"),
     "C04": ("model_checking", "TermDesign.tla: every short sequence of frames (bars added/removed/popped, extender rows, text, more rows than the "
             "terminal is high) produced by the flush/cwriter protocol on a VT100-subset terminal with scrollback; invariant InPlace (everything "
             "reachable on the terminal = persisted lines ++ current rows).  TermTrace.tla runs the frames of real executions (buffer; real pty "
@@ -80,8 +85,8 @@ TECH["C19"] = "TLC enumeration of Proxy.tla (reference machine + invariants); ev
 TECH["C20"] = "TLC checking of Decor.tla (conservation of sample time, unit selection, h/m/s split); every case replayed on the real decorators and formatter types"
 TECH["C04"] = "TLC model checking of TermDesign.tla (frame protocol on an emulated terminal); TLC trace validation (TermTrace.tla) of buffer and real-pty output; Obs.tla rules for delay / no-refresh"
 TECH["C18"] = "TLA+ trace validation (Obs.tla, TermTrace.tla) of gate-scheduled and pty executions; TLC model checking of TermDesign.tla"
-TECH["C09"] = "TLC model checking of BarState.tla + replay of its TLC-emitted transition relation on the real Bar"
-TECH["C11"] = "TLC model checking of BarState.tla + replay of its transition relation; TLA+ trace validation (Obs.tla) of gate-scheduled executions"
+TECH["C09"] = "TLC model checking of BarState.tla + replay of its TLC-emitted transition relation on the real Bar; Apalache inductive invariant of the same rules over unbounded integers (BarInd.tla)"
+TECH["C11"] = "TLC model checking of BarState.tla + replay of its transition relation; Apalache inductive invariant (BarInd.tla); TLA+ trace validation (Obs.tla) of gate-scheduled executions"
 
 NOT_YET = {}
 
